@@ -32,6 +32,7 @@ import CBV.Lemmas.C08Tie
 import Mathlib.Tactic.NormNum
 import Mathlib.Algebra.Order.Field.Rat
 import Mathlib.Analysis.SpecialFunctions.Trigonometric.Bounds
+import CBV.Gen.TC08
 
 namespace CBV.C08
 open Vec
